@@ -77,8 +77,15 @@ def experiment(exp_id, scs):
                     os.chmod(shell, 0o755)
                 text, lines = doc_text(pid, di + 1, outcome, sc["env"], shell)
                 path = os.path.join(ddir, name)
-                with open(path, "w") as f:
-                    f.write(text)
+                if sc["env"] == "symlink":
+                    real_dir = os.path.join(pdir, f"real{di + 1}")
+                    os.makedirs(real_dir, exist_ok=True)
+                    with open(os.path.join(real_dir, "shared-target.md"), "w") as f:
+                        f.write(text)
+                    os.symlink(os.path.join(os.path.relpath(real_dir, ddir), "shared-target.md"), path)
+                else:
+                    with open(path, "w") as f:
+                        f.write(text)
                 paths.append(path)
                 for tid, ln in lines.items():
                     expect[tid] = {"TESTDIR": os.path.realpath(ddir), "TESTFILE": name, "SCRUT_TEST": f"{path}:{ln}", "doc": di,
@@ -110,7 +117,13 @@ def experiment(exp_id, scs):
                        CDPATH="/polluted-cdpath", GREP_OPTIONS="--polluted", LANG="de_DE.UTF-8", LANGUAGE="de", LC_ALL="de_DE.UTF-8",
                        TZ="Asia/Tokyo", COLUMNS="7", TESTDIR="/polluted", TESTFILE="polluted", TESTSHELL="/polluted", SCRUT_TEST="polluted")
             env.pop("SCRUT_VERIF_TRACE", None)
-            p = subprocess.Popen(argv, cwd=pdir, env=env, stdout=subprocess.PIPE, stderr=subprocess.PIPE, start_new_session=True)
+            run_cwd = pdir
+            if sc["env"] == "relpath":
+                # the documents are named relative to a directory below theirs
+                run_cwd = os.path.join(os.path.dirname(paths[0]), "below")
+                os.makedirs(run_cwd, exist_ok=True)
+                argv = [os.path.relpath(a, run_cwd) if a in paths else a for a in argv]
+            p = subprocess.Popen(argv, cwd=run_cwd, env=env, stdout=subprocess.PIPE, stderr=subprocess.PIPE, start_new_session=True)
             procs.append({"p": p, "sc": sc, "pdir": pdir, "wdir": wdir, "expect": expect, "paths": paths, "shared_pairs": shared_pairs})
         # wait for each; snapshot of the shared temp root right after its exit
         pending = list(procs)
@@ -174,6 +187,8 @@ def experiment(exp_id, scs):
                         "TZ": "GMT", "COLUMNS": "80", "CDPATH": "", "GREP_OPTIONS": "", "SCRUT_TEST": exp["SCRUT_TEST"]}
                 if sc["env"] == "compat":
                     del want["SCRUT_TEST"]          # documented for the per-test executor only
+                if sc["env"] in ("symlink", "relpath"):
+                    del want["SCRUT_TEST"]          # (which spelling of the path it carries is not specified)
                 wrong = sorted(v for v, w in want.items() if e[v] != w)
                 if e["tmp_is_dir"] != "dir" or not e["TMPDIR"].startswith((tmproot if sc["mode"] != "workdir" else pr["wdir"]) + "/"):
                     wrong.append("TMPDIR")
@@ -235,11 +250,12 @@ def run(prop, tier, replay=None):
         # the single-script executor (--cram-compat) refuses per-test timeouts: such documents do not run at all (C20's subject)
         singles = [x for x in singles if not (x["env"] == "compat" and any(o.startswith("timeout") for o in x["docs"]))]
         rnd = random.Random(s * 101 + 5)
-        nsingle, nmulti = (70, 30) if tier == "quick" else (len(singles), 400)
+        nsingle, nmulti = (100, 30) if tier == "quick" else (len(singles), 400)
         # always: every (mode, outcome) with one document and plain env; then a seeded sample of the rest
         base = [x for x in singles if not x["samename"] and ((len(x["docs"]) == 1 and x["env"] == "plain")
                                                              or (x["env"] in ("shared", "compat", "shadow") and x["docs"] in (["pass"], ["pass", "fail"], ["timeout"], ["skip"]))
-                                                             or (x["env"] == "shells" and x["docs"] in (["pass", "pass"], ["pass", "fail"])))]
+                                                             or (x["env"] == "shells" and x["docs"] in (["pass", "pass"], ["pass", "fail"]))
+                                                             or (x["env"] in ("symlink", "relpath") and x["docs"] in (["pass"], ["pass", "fail"])))]
         rest = [x for x in singles if x not in base]
         chosen = base + rnd.sample(rest, max(0, min(len(rest), nsingle - len(base))))
         exps = [[x] for x in chosen]
